@@ -1,5 +1,581 @@
-import XrlC13.Hand.CrystalNum
+import XrlC13.Lemmas.Witness
+import XrlC13.Lemmas.Metric
+import XrlC13.Lemmas.Sums
+import XrlC13.Lemmas.ComplexForm
+/-!
+# C13 — crystal diffraction results obey Bragg's law and structure-factor algebra
+
+Every theorem is about the hand model `Hand/CrystalNum.lean` of the numeric half of src/crystal_diffraction.c, read over
+ℝ, for **every** crystal record (cell, stored volume, atom list of any length), Miller triple, energy, Debye factor,
+relative angle, flag triple, error slot, and **every** behaviour of the elemental functions `FF_Rayl, Fi, Fii`
+(parameter `P : Elem ℝ`; hypotheses say what is assumed of them: `Gives` = "answers this value and leaves the slot
+alone", `ElemContract` = their C03 contract).  `v : Variant` is the code as shipped (`asIs`) or with some of the proposed
+repairs notes/proposed_fixes/C13-1..5.diff; a theorem without a hypothesis on `v` holds for all 32 combinations.
+
+Where the shipped code violates the property the file keeps, side by side, the full statement as a `def …_full (v) : Prop`,
+its refutation `…_full_fails` for the unrepaired switch on a concrete witness (replayed on the library by the check and
+listed as a known finding), what is proved under the hypothesis that excludes the witness set, and `…_fixed` for the
+repaired switch:
+
+| full statement                | fails for          | witness                                  | proved instead                         |
+|-------------------------------|--------------------|------------------------------------------|----------------------------------------|
+| `bragg_no_reflection_full`    | `braggFix = false` | unit cube, (1,0,0), 1 keV: `nf "asin"`   | `bragg_law` (a reflection exists)      |
+| `atomic_factors_zero_full`    | `zeroFix = false`  | `Fii = 0`: rc 0, no error                | `atomic_factors_spec` (products ≠ 0)   |
+| `fh_no_ub_full`               | `nullFix = false`  | crystal NULL, hkl = 000: `ub`            | `fh_no_ub_partial`, `fh_no_abort`      |
+|                               | `zFix = false`     | `Zatom = 120`: `ub`                      |  (non-NULL, `validAtoms`)              |
+| `dspacing_no_ub_full`         | `ovfFix = false`   | (40000,40000,1): `ub`                    | `dspacing_no_ub_partial` (`smallMiller`)|
+
+The constants are the decimal literals of include/xraylib.h: "2π" in the phase factor is the header's `TWOPI`, degrees
+are converted with `DEGRAD`; nothing below depends on their numeric value except the witnesses (`|PI − π| < 10⁻⁶`).
+-/
 namespace Xrl
 namespace C13
+open Xrl.Spec (Returns Fails Meets Expect)
+open Spec (Returns2 Fails2)
+
+/-! ## Cell volume -/
+
+/-- the volume function returns `√(det G)` of the direct metric tensor for every non-degenerate cell -/
+theorem volume_formula (cc : Crystal ℝ) (error : Slot) (h : Spec.nonDegenerate cc) :
+    Returns (Crystal_UnitCellVolume (some cc) error) (Spec.volume cc) error := by
+  obtain ⟨ha, hb, hc, hD⟩ := nonDegenerate_good h
+  unfold Returns Crystal_UnitCellVolume
+  have hD' : ¬ (detC cc < 0) := not_lt.mpr hD.le
+  have hdef : ((1.0 : ℝ) - pow2 (cosd cc.alpha) - pow2 (cosd cc.beta) - pow2 (cosd cc.gamma)) +
+      (2.0 : ℝ) * cosd cc.alpha * cosd cc.beta * cosd cc.gamma = detC cc := rfl
+  simp only [hdef, dsqrt, lit0, hD', if_false, bind_ok, pure_eq_ok, xsqrt, volume_spec ha hb hc]
+
+theorem volume_null_fails (error : Slot) (he : error.isFull = false) :
+    Fails (Crystal_UnitCellVolume (none : Option (Crystal ℝ)) error) error :=
+  ⟨⟨XRL_ERROR_INVALID_ARGUMENT, CRYSTAL_NULL⟩, by decide, by decide, by simp [Crystal_UnitCellVolume, setErr_notFull he]⟩
+
+/-- three axes that cannot close a cell (negative Gram determinant): the square root has a negative argument -/
+theorem volume_degenerate_nf (cc : Crystal ℝ) (error : Slot) (h : detC cc < 0) :
+    Crystal_UnitCellVolume (some cc) error = .error (.nf "sqrt") := by
+  unfold Crystal_UnitCellVolume
+  have hdef : ((1.0 : ℝ) - pow2 (cosd cc.alpha) - pow2 (cosd cc.beta) - pow2 (cosd cc.gamma)) +
+      (2.0 : ℝ) * cosd cc.alpha * cosd cc.beta * cosd cc.gamma = detC cc := rfl
+  simp only [hdef, dsqrt, lit0, h, if_true]
+  rfl
+
+example : Returns (Crystal_UnitCellVolume (some cube) Slot.empty) (Spec.volume cube) Slot.empty :=
+  volume_formula cube Slot.empty (good_nonDegenerate cube_valid.good)
+
+/-! ## d-spacing -/
+
+/-- `d(−h) = d(h)`: the two calls have the same outcome (value, error or abort), for every crystal pointer -/
+theorem dspacing_inversion (v : Variant) (cr : Option (Crystal ℝ)) (i j k : Int) (error : Slot) (hs : SafeMiller v i j k) :
+    Crystal_dSpacing v cr (-i) (-j) (-k) error = Crystal_dSpacing v cr i j k error :=
+  dSpacing_inversion v cr hs error
+
+/-- `d(n·h) = d(h)/|n|` for `n ≠ 0`: same outcome, the value divided by `|n|` -/
+theorem dspacing_scale (v : Variant) (cr : Option (Crystal ℝ)) (n i j k : Int) (error : Slot) (hn : n ≠ 0)
+    (hs : SafeMiller v i j k) (hsn : SafeMiller v (n * i) (n * j) (n * k)) :
+    Crystal_dSpacing v cr (n * i) (n * j) (n * k) error =
+      (Crystal_dSpacing v cr i j k error).map (fun p => (p.1 / |(n : ℝ)|, p.2)) :=
+  dSpacing_scale v cr hn hs hsn error
+
+/-- the reciprocal metric tensor of the specification is the inverse of the direct one -/
+theorem recip_metric_is_inverse (cc : Crystal ℝ) (h : Spec.nonDegenerate cc) :
+    (Spec.metric cc).toMatrix * (Spec.recip (Spec.metric cc)).toMatrix = 1 := by
+  apply recip_mul
+  have := h.2.2.2
+  simp only [lit0] at this
+  exact this.ne'
+
+/-- in general: `d = (stored volume / recomputed volume) · 1/√(hᵀ G* h)` -/
+theorem dspacing_reciprocal_metric_scaled (v : Variant) (cc : Crystal ℝ) (i j k : Int) (error : Slot)
+    (h : Spec.nonDegenerate cc) (hs : SafeMiller v i j k) (h0 : ¬ (i = 0 ∧ j = 0 ∧ k = 0)) :
+    Returns (Crystal_dSpacing v (some cc) i j k error) (cc.volume / Spec.volume cc * Spec.dRecip cc i j k) error := by
+  have hg := nonDegenerate_good h
+  unfold Returns
+  rw [dSpacing_good v hg error hs h0, dval_eq_recip hg h0]
+
+/-- with a consistent record (`volume² = det G`, volume positive) the d-spacing is `1/√(hᵀ G* h)`, `G* = G⁻¹` -/
+theorem dspacing_reciprocal_metric (v : Variant) (cc : Crystal ℝ) (i j k : Int) (error : Slot)
+    (h : Spec.nonDegenerate cc) (hs : SafeMiller v i j k) (h0 : ¬ (i = 0 ∧ j = 0 ∧ k = 0))
+    (hvol : cc.volume ^ 2 = Spec.det (Spec.metric cc)) (hpos : 0 < cc.volume) :
+    Returns (Crystal_dSpacing v (some cc) i j k error) (Spec.dRecip cc i j k) error := by
+  have hvs : Spec.volume cc = cc.volume := by
+    unfold Spec.volume
+    rw [xsqrt, ← hvol, Real.sqrt_sq hpos.le]
+  have := dspacing_reciprocal_metric_scaled v cc i j k error h hs h0
+  rwa [hvs, div_self hpos.ne', one_mul] at this
+
+example : Returns (Crystal_dSpacing asIs (some cubeV) 1 0 0 Slot.empty) (Spec.dRecip cubeV 1 0 0) Slot.empty := by
+  have hnd : Spec.nonDegenerate cubeV := good_nonDegenerate cube_valid.good
+  have hdet : (0 : ℝ) < Spec.det (Spec.metric cube) := by have := hnd.2.2.2; simp only [lit0] at this; exact this
+  apply dspacing_reciprocal_metric asIs cubeV 1 0 0 Slot.empty hnd (Or.inr cube_smallMiller) (by decide)
+  · show (Spec.volume cube) ^ 2 = Spec.det (Spec.metric cube)
+    unfold Spec.volume; rw [xsqrt, Real.sq_sqrt hdet.le]
+  · show 0 < Spec.volume cube
+    unfold Spec.volume; rw [xsqrt]; exact Real.sqrt_pos.mpr hdet
+
+example : Crystal_dSpacing asIs (some cube) (-1) 0 0 Slot.empty = Crystal_dSpacing asIs (some cube) 1 0 0 Slot.empty := by
+  have := dspacing_inversion asIs (some cube) 1 0 0 Slot.empty (Or.inr cube_smallMiller)
+  simpa using this
+
+example : Crystal_dSpacing asIs (some cube) (3 * 1) (3 * 0) (3 * 0) Slot.empty = .ok (dval cube 1 0 0 / |((3 : Int) : ℝ)|, Slot.empty) := by
+  rw [dspacing_scale asIs (some cube) 3 1 0 0 Slot.empty (by decide) (Or.inr cube_smallMiller) (Or.inr (by decide)),
+    dSpacing_valid asIs cube_valid Slot.empty (Or.inr cube_smallMiller) (by decide)]
+  rfl
+
+/-- the d-spacing meets the executable specification (NULL or (0,0,0): an error; non-degenerate cell: the value) -/
+theorem dspacing_meets_spec (v : Variant) (cr : Option (Crystal ℝ)) (i j k : Int) (error : Slot)
+    (he : error.isFull = false) (hs : SafeMiller v i j k) :
+    Meets (Crystal_dSpacing v cr i j k error) error (Spec.expectDSpacing cr i j k) := by
+  cases cr with
+  | none =>
+    exact ⟨⟨XRL_ERROR_INVALID_ARGUMENT, CRYSTAL_NULL⟩, by decide, by decide, by simp [Crystal_dSpacing, setErr_notFull he]⟩
+  | some cc =>
+    unfold Spec.expectDSpacing
+    by_cases h0 : i = 0 ∧ j = 0 ∧ k = 0
+    · simp only [h0, and_self, if_true]
+      exact ⟨⟨XRL_ERROR_INVALID_ARGUMENT, INVALID_MILLER⟩, by decide, by decide, by simp [Crystal_dSpacing, h0, setErr_notFull he]⟩
+    · simp only [h0, if_false]
+      by_cases hn : Spec.nonDegenerate cc
+      · simp only [hn, if_true]
+        exact dspacing_reciprocal_metric_scaled v cc i j k error hn hs h0
+      · simp only [hn, if_false]; trivial
+
+example : Returns (Crystal_dSpacing asIs (some cube) 1 0 0 Slot.empty)
+    (cube.volume / Spec.volume cube * Spec.dRecip cube 1 0 0) Slot.empty :=
+  dspacing_reciprocal_metric_scaled asIs cube 1 0 0 Slot.empty (good_nonDegenerate cube_valid.good)
+    (Or.inr cube_smallMiller) (by decide)
+
+/-- the `int` products `2*i*j` : no undefined behaviour for every `int` Miller triple -/
+def dspacing_no_ub_full (v : Variant) : Prop :=
+  ∀ (cr : Option (Crystal ℝ)) (i j k : Int) (error : Slot), inI32 i → inI32 j → inI32 k →
+    ∀ w, Crystal_dSpacing v cr i j k error ≠ .error (.ub w)
+
+theorem dspacing_no_ub_partial (v : Variant) (cr : Option (Crystal ℝ)) (i j k : Int) (error : Slot)
+    (hs : SafeMiller v i j k) (w : String) : Crystal_dSpacing v cr i j k error ≠ .error (.ub w) := by
+  cases cr with
+  | none => unfold Crystal_dSpacing; cases error <;> simp [setErr]
+  | some cc =>
+    by_cases h0 : i = 0 ∧ j = 0 ∧ k = 0
+    · unfold Crystal_dSpacing; cases error <;> simp [setErr, h0]
+    · rw [dSpacing_eval v cc error hs h0]
+      split_ifs <;> simp
+
+/-- `Crystal_dSpacing(cube, 40000, 40000, 1)`: `2*40000*40000` does not fit an `int` -/
+theorem dspacing_no_ub_full_fails (v : Variant) (hv : v.ovfFix = false) : ¬ dspacing_no_ub_full v := by
+  intro h
+  have := h (some cube) 40000 40000 1 Slot.empty (by decide) (by decide) (by decide)
+    "int overflow: 2 * i_miller * j_miller"
+  apply this
+  unfold Crystal_dSpacing twoIJ
+  simp [hv, cube, ddiv, chkI, inI32, INT_MIN, INT_MAX]
+
+theorem dspacing_no_ub_fixed (v : Variant) (hv : v.ovfFix = true) : dspacing_no_ub_full v :=
+  fun cr i j k error _ _ _ w => dspacing_no_ub_partial v cr i j k error (Or.inl hv) w
+
+example : SafeMiller asIs 6 (-6) 5 := Or.inr (by decide)
+
+/-! ## Bragg's law -/
+
+/-- when a reflection exists (`|λ/2d| ≤ 1`) the call returns an angle with `2 d sin θ = hc/E` and leaves the slot as
+`Crystal_dSpacing` left it -/
+theorem bragg_law (v : Variant) (cr : Option (Crystal ℝ)) (E : ℝ) (i j k : Int) (error e' : Slot) (d : ℝ) (hE : 0 < E)
+    (hd : Crystal_dSpacing v cr i j k error = .ok (d, e')) (hd0 : d ≠ 0) (hr : |KEV2ANGST / E / (2 * d)| ≤ 1) :
+    ∃ θ, Bragg_angle v cr E i j k error = .ok (θ, e') ∧ 2 * d * Real.sin θ = KEV2ANGST / E := by
+  have hr' : |braggSin E d| ≤ 1 := hr
+  obtain ⟨h1, h2⟩ := abs_le.mp hr'
+  refine ⟨Real.arcsin (braggSin E d), ?_, ?_⟩
+  · rw [bragg_of_dspacing v cr hE hd hd0]
+    have hno : ¬ (braggSin E d < -1 ∨ 1 < braggSin E d) := by
+      intro h; rcases h with h | h <;> linarith
+    split_ifs <;> rfl
+  · rw [Real.sin_arcsin h1 h2]
+    unfold braggSin
+    field_simp
+
+/-- on a valid crystal record: a reflection exists iff `hc/E ≤ 2d`, and then Bragg's law holds -/
+theorem bragg_law_valid_cell (v : Variant) (cc : Crystal ℝ) (E : ℝ) (i j k : Int) (error : Slot) (hv : validCell cc)
+    (hE : 0 < E) (hs : SafeMiller v i j k) (h0 : ¬ (i = 0 ∧ j = 0 ∧ k = 0)) :
+    ∃ d, Crystal_dSpacing v (some cc) i j k error = .ok (d, error) ∧ 0 < d ∧
+      (KEV2ANGST / E ≤ 2 * d → ∃ θ, Bragg_angle v (some cc) E i j k error = .ok (θ, error) ∧ 2 * d * Real.sin θ = KEV2ANGST / E) := by
+  refine ⟨dval cc i j k, dSpacing_valid v hv error hs h0, dval_pos hv h0, fun hr => ?_⟩
+  have ⟨hpos, hle⟩ := braggSin_range hv hE h0
+  exact bragg_law v (some cc) E i j k error error _ hE (dSpacing_valid v hv error hs h0) (dval_pos hv h0).ne'
+    (by show |braggSin E (dval cc i j k)| ≤ 1; rw [abs_of_pos hpos]; exact hle.mpr hr)
+
+example : ∃ θ, Bragg_angle asIs (some cube) 10 1 0 0 Slot.empty = .ok (θ, Slot.empty) ∧
+    2 * dval cube 1 0 0 * Real.sin θ = KEV2ANGST / 10 := by
+  obtain ⟨d, hd, _, h⟩ := bragg_law_valid_cell asIs cube 10 1 0 0 Slot.empty cube_valid (by norm_num)
+    (Or.inr cube_smallMiller) (by decide)
+  have hdv : d = dval cube 1 0 0 := by
+    rw [dSpacing_valid asIs cube_valid Slot.empty (Or.inr cube_smallMiller) (by decide)] at hd
+    injection hd with hd; injection hd with hd; exact hd.symm
+  subst hdv
+  apply h
+  have := cube_dval_ge_one
+  unfold KEV2ANGST; norm_num; linarith
+
+theorem bragg_nonpositive_energy_fails (v : Variant) (cr : Option (Crystal ℝ)) (E : ℝ) (i j k : Int) (error : Slot)
+    (he : error.isFull = false) (hE : E ≤ 0) : Fails (Bragg_angle v cr E i j k error) error := by
+  rw [bragg_nonpos v cr hE, setErr_notFull he]
+  exact ⟨⟨XRL_ERROR_INVALID_ARGUMENT, NEGATIVE_ENERGY⟩, by decide, by decide, by simp [Except.bind]⟩
+
+/-- the property: *no reflection (`hc/E > 2d`) ⇒ an error* -/
+def bragg_no_reflection_full (v : Variant) : Prop :=
+  ∀ (cr : Option (Crystal ℝ)) (E : ℝ) (i j k : Int) (error : Slot) (d : ℝ), 0 < E → error.isFull = false →
+    Crystal_dSpacing v cr i j k error = .ok (d, error) → 0 < d → KEV2ANGST / E > 2 * d →
+    Fails (Bragg_angle v cr E i j k error) error
+
+/-- what the shipped code does instead: `asin` of a number above 1 — NaN, no error -/
+theorem bragg_no_reflection_nf (v : Variant) (hv : v.braggFix = false) (cr : Option (Crystal ℝ)) (E : ℝ) (i j k : Int)
+    (error : Slot) (d : ℝ) (hE : 0 < E) (hd : Crystal_dSpacing v cr i j k error = .ok (d, error)) (hd0 : 0 < d)
+    (hr : KEV2ANGST / E > 2 * d) : Bragg_angle v cr E i j k error = .error (.nf "asin") := by
+  rw [bragg_of_dspacing v cr hE hd hd0.ne']
+  have h1 : 1 < braggSin E d := by
+    unfold braggSin; rw [lt_div_iff₀ (by positivity)]; linarith
+  simp [hv, h1]
+
+theorem bragg_no_reflection_full_fails (v : Variant) (hv : v.braggFix = false) : ¬ bragg_no_reflection_full v := by
+  intro h
+  have hd := dSpacing_valid v cube_valid Slot.empty (Or.inr cube_smallMiller) (i := 1) (j := 0) (k := 0) (by decide)
+  obtain ⟨e, _, _, he⟩ := h (some cube) 1 1 0 0 Slot.empty _ one_pos rfl hd cube_dval.1 cube_no_reflection
+  rw [bragg_no_reflection_nf v hv (some cube) 1 1 0 0 Slot.empty _ one_pos hd cube_dval.1 cube_no_reflection] at he
+  cases he
+
+theorem bragg_no_reflection_fixed (v : Variant) (hv : v.braggFix = true) : bragg_no_reflection_full v := by
+  intro cr E i j k error d hE he hd hd0 hr
+  rw [bragg_of_dspacing v cr hE hd hd0.ne']
+  have h1 : ¬ |braggSin E d| ≤ 1 := by
+    have : 1 < braggSin E d := by
+      unfold braggSin; rw [lt_div_iff₀ (by positivity)]; linarith
+    rw [abs_of_pos (by linarith)]; linarith
+  simp only [hv, if_true, h1, if_false, setErr_notFull he]
+  exact ⟨⟨XRL_ERROR_INVALID_ARGUMENT, NO_REFLECTION⟩, by decide, by decide, by simp [Except.bind]⟩
+
+example : Bragg_angle asIs (some cube) 1 1 0 0 Slot.empty = .error (.nf "asin") :=
+  bragg_no_reflection_nf asIs rfl (some cube) 1 1 0 0 Slot.empty _ one_pos
+    (dSpacing_valid asIs cube_valid Slot.empty (Or.inr cube_smallMiller) (by decide)) cube_dval.1 cube_no_reflection
+
+example : Fails (Bragg_angle repaired (some cube) 1 1 0 0 Slot.empty) Slot.empty :=
+  bragg_no_reflection_fixed repaired rfl (some cube) 1 1 0 0 Slot.empty _ one_pos rfl
+    (dSpacing_valid repaired cube_valid Slot.empty (Or.inl rfl) (by decide)) cube_dval.1 cube_no_reflection
+
+/-! ## Atomic factors -/
+
+/-- when the three elemental functions answer (and, for the shipped code, no requested product is exactly 0):
+return code 1, the requested outputs are `FF·D, Fi·D, −Fii·D`, the slot is untouched -/
+theorem atomic_factors_spec (v : Variant) (P : Elem ℝ) (Z : Int) (E q D a b c : ℝ) (w0 wp wpp : Bool) (error : Slot)
+    (hD : 0 < D) (ha : Gives (P.ff Z q) a) (hb : Gives (P.fi Z E) b) (hc : Gives (P.fii Z E) c)
+    (hnz : v.zeroFix = true ∨ ((w0 = true → a * D ≠ 0) ∧ (wp = true → b * D ≠ 0) ∧ (wpp = true → -c * D ≠ 0))) :
+    Atomic_Factors v P Z E q D w0 wp wpp error =
+      .ok ((1, if w0 = true then some (a * D) else none, if wp = true then some (b * D) else none,
+            if wpp = true then some (-c * D) else none), error) := by
+  have t : ∀ (w : Bool) (f : Slot → M (ℝ × Slot)) (x : ℝ) (sign : ℝ → ℝ), Gives f x →
+      (v.zeroFix = true ∨ (w = true → sign x * D ≠ 0)) →
+      afTerm v w f sign D error = .ok (if w = true then some (sign x * D) else none, false, error) := by
+    intro w f x sign hf hz
+    cases w with
+    | false => simp [afTerm_skip]
+    | true => simpa using afTerm_gives v hf sign D error (hz.imp id (fun h => h rfl))
+  unfold Atomic_Factors
+  have h1 := t w0 _ a id ha (hnz.imp id (fun h => by simpa using h.1))
+  have h2 := t wp _ b id hb (hnz.imp id (fun h => by simpa using h.2.1))
+  have h3 := t wpp _ c (fun x => -x) hc (hnz.imp id (fun h => by simpa using h.2.2))
+  simp only [lit0, not_le.mpr hD, if_false, h1, h2, h3, bind_ok, id]
+  rfl
+
+/-- a non-positive Debye factor: return code 0, outputs zeroed, exactly one error -/
+theorem atomic_factors_debye_fails (v : Variant) (P : Elem ℝ) (Z : Int) (E q D : ℝ) (w0 wp wpp : Bool) (error : Slot)
+    (he : error.isFull = false) (hD : D ≤ 0) :
+    Atomic_Factors v P Z E q D w0 wp wpp error =
+      .ok ((0, zeroed w0, zeroed wp, zeroed wpp), error.withErr ⟨XRL_ERROR_INVALID_ARGUMENT, NEGATIVE_DEBYE_FACTOR⟩) := by
+  unfold Atomic_Factors
+  simp only [lit0, hD, if_true, setErr_notFull he, bind_ok, pure_eq_ok]
+
+/-- the property (C03 for this function): *all three factors available ⇒ success with the products* -/
+def atomic_factors_zero_full (v : Variant) : Prop :=
+  ∀ (P : Elem ℝ) (Z : Int) (E q D a b c : ℝ) (error : Slot), 0 < D →
+    Gives (P.ff Z q) a → Gives (P.fi Z E) b → Gives (P.fii Z E) c →
+    Atomic_Factors v P Z E q D true true true error = .ok ((1, some (a * D), some (b * D), some (-c * D)), error)
+
+/-- what the shipped code does when `Fii` is exactly 0: return code 0, everything zeroed, **no** error -/
+theorem atomic_factors_zero_silent (v : Variant) (hv : v.zeroFix = false) (P : Elem ℝ) (Z : Int) (E q D a b : ℝ)
+    (error : Slot) (hD : 0 < D) (ha : Gives (P.ff Z q) a) (hb : Gives (P.fi Z E) b) (hc : Gives (P.fii Z E) 0)
+    (ha0 : a * D ≠ 0) (hb0 : b * D ≠ 0) :
+    Atomic_Factors v P Z E q D true true true error = .ok ((0, some 0, some 0, some 0), error) := by
+  unfold Atomic_Factors
+  have h1 := afTerm_gives v ha id D error (Or.inr (by simpa using ha0))
+  have h2 := afTerm_gives v hb id D error (Or.inr (by simpa using hb0))
+  have h3 := afTerm_zero v hv hc (fun x => -x) D error (by simp)
+  simp only [lit0, not_le.mpr hD, if_false, h1, h2, h3, bind_ok, zeroed, if_true]
+  rfl
+
+theorem atomic_factors_zero_full_fails (v : Variant) (hv : v.zeroFix = false) : ¬ atomic_factors_zero_full v := by
+  intro h
+  have h1 := h Pzero 8 1 0 1 8 1 0 Slot.empty one_pos (fun _ => rfl) (fun _ => rfl) (fun _ => rfl)
+  rw [atomic_factors_zero_silent v hv Pzero 8 1 0 1 8 1 Slot.empty one_pos (fun _ => rfl) (fun _ => rfl) (fun _ => rfl)
+    (by norm_num) (by norm_num)] at h1
+  injection h1 with h1
+  injection h1 with h1
+  injection h1 with h1
+  exact absurd h1 (by decide)
+
+theorem atomic_factors_zero_fixed (v : Variant) (hv : v.zeroFix = true) : atomic_factors_zero_full v :=
+  fun P Z _ _ _ _ _ _ error hD ha hb hc => atomic_factors_ok v P Z hD ha hb hc (Or.inl hv) error
+
+example : Atomic_Factors asIs P0 14 8 0.2 1 true true true Slot.empty = .ok ((1, some (14 * 1), some (1 * 1), some (-1 * 1)), Slot.empty) := by
+  have := atomic_factors_spec asIs P0 14 8 0.2 1 ((14 : Int) : ℝ) 1 1 true true true Slot.empty one_pos
+    (fun _ => rfl) (fun _ => rfl) (fun _ => rfl) (Or.inr (by norm_num))
+  simpa using this
+
+example : Atomic_Factors asIs Pzero 8 1 0 1 true true true Slot.empty = .ok ((0, some 0, some 0, some 0), Slot.empty) :=
+  atomic_factors_zero_silent asIs rfl Pzero 8 1 0 1 8 1 Slot.empty one_pos (fun _ => rfl) (fun _ => rfl) (fun _ => rfl)
+    (by norm_num) (by norm_num)
+
+/-! ## Structure factor -/
+
+/-- **explicit sum.**  For any atom list: when `Q` answers `q`, the Debye factor is positive, the flags are valid, every
+`Zatom` is a legal subscript and the library reports the factors `F Z = (FF, Fi, Fii)` of every element present, the
+result is `Σ_atoms occ · (f₀ + f′ + i f″) · e^{i·TWOPI·h·r}` with `(f₀, f′, f″) = (FF·D, Fi·D, −Fii·D)` selected by the
+flags — the per-Z cache returns, for every atom, the factor of that atom's element (`fillCache_reports`). -/
+theorem fh_explicit_sum (v : Variant) (P : Elem ℝ) (cc : Crystal ℝ) (E q D rel : ℝ) (i j k a b c : Int) (error : Slot)
+    (F : Int → ℝ × ℝ × ℝ)
+    (hQ : Q_scattering_amplitude v (some cc) E i j k rel Slot.empty = .ok (q, Slot.empty))
+    (hD : 0 < D) (hfl : validFlags a b c)
+    (hat : ∀ atom ∈ cc.atoms, (0 ≤ atom.Zatom ∧ atom.Zatom < 120) ∧ Reports v P E q D F atom.Zatom) :
+    Returns2 (Crystal_F_H_StructureFactor_Partial v P (some cc) E i j k D rel a b c error)
+        (Spec.structureFactor cc i j k (fAof F D a b c)) error ∧
+      ∀ Z, Spec.atomicFactor ((F Z).1 * D) ((F Z).2.1 * D) (-(F Z).2.2 * D) a b c = some (fAof F D a b c Z) :=
+  ⟨fh_eval v P cc error hQ hD hfl F hat, fun Z => atomicFactor_valid hfl _ _ _⟩
+
+/-- the sum in `Σ` form -/
+theorem fh_explicit_sum_list (cc : Crystal ℝ) (i j k : Int) (fA : Int → ℝ × ℝ) :
+    Spec.structureFactor cc i j k fA = (cc.atoms.map (Spec.summand i j k fA)).sum := by
+  unfold Spec.structureFactor
+  simp only [lit0]
+  exact sumFrom_zero i j k fA cc.atoms
+
+/-- …and in complex notation: `F = Σ occ · (f_re + i f_im) · exp(i · TWOPI · h·r)` -/
+theorem fh_explicit_sum_complex (cc : Crystal ℝ) (i j k : Int) (fA : Int → ℝ × ℝ) :
+    toC (Spec.structureFactor cc i j k fA) =
+      (cc.atoms.map (fun atom => (atom.fraction : ℂ) * toC (fA atom.Zatom) *
+        Complex.exp (Complex.I * (Spec.phase i j k atom : ℝ)))).sum := by
+  rw [fh_explicit_sum_list, sum_complex]
+
+example : Returns2 (Crystal_F_H_StructureFactor_Partial asIs P0 (some cube) 10 1 0 0 1 1 2 2 2 Slot.empty)
+    (Spec.structureFactor cube 1 0 0 (fAof F0 1 2 2 2)) Slot.empty :=
+  (fh_explicit_sum asIs P0 cube 10 _ 1 1 1 0 0 2 2 2 Slot.empty F0 (cube_hQ asIs) one_pos (by decide) (cube_reports asIs 10 _)).1
+
+/-- **additivity in the three flags**: `F(a,b,c) = F(a,0,0) + F(0,b,0) + F(0,0,c)` -/
+theorem fh_additive_flags (v : Variant) (P : Elem ℝ) (cc : Crystal ℝ) (E q D rel : ℝ) (i j k a b c : Int) (error : Slot)
+    (F : Int → ℝ × ℝ × ℝ)
+    (hQ : Q_scattering_amplitude v (some cc) E i j k rel Slot.empty = .ok (q, Slot.empty))
+    (hD : 0 < D) (hfl : validFlags a b c)
+    (hat : ∀ atom ∈ cc.atoms, (0 ≤ atom.Zatom ∧ atom.Zatom < 120) ∧ Reports v P E q D F atom.Zatom) :
+    ∃ Fabc Fa Fb Fc : ℝ × ℝ,
+      Crystal_F_H_StructureFactor_Partial v P (some cc) E i j k D rel a b c error = .ok (Fabc, error) ∧
+      Crystal_F_H_StructureFactor_Partial v P (some cc) E i j k D rel a 0 0 error = .ok (Fa, error) ∧
+      Crystal_F_H_StructureFactor_Partial v P (some cc) E i j k D rel 0 b 0 error = .ok (Fb, error) ∧
+      Crystal_F_H_StructureFactor_Partial v P (some cc) E i j k D rel 0 0 c error = .ok (Fc, error) ∧
+      Fabc = Fa + Fb + Fc := by
+  refine ⟨_, _, _, _, fh_eval v P cc error hQ hD hfl F hat, fh_eval v P cc error hQ hD (validFlags_a a hfl.1) F hat,
+    fh_eval v P cc error hQ hD (validFlags_b b hfl.2.1) F hat, fh_eval v P cc error hQ hD (validFlags_c c hfl.2.2) F hat, ?_⟩
+  unfold Spec.structureFactor
+  simp only [lit0]
+  rw [← sumFrom_add, ← sumFrom_add]
+  congr 1
+  funext Z
+  exact fAof_additive F D hfl Z
+
+example : validFlags 2 2 2 ∧ validFlags 1 0 2 ∧ ¬ validFlags 2 1 2 := by decide
+
+example : ∃ Fabc Fa Fb Fc : ℝ × ℝ,
+    Crystal_F_H_StructureFactor_Partial asIs P0 (some cube) 10 1 0 0 1 1 1 2 2 Slot.empty = .ok (Fabc, Slot.empty) ∧
+    Crystal_F_H_StructureFactor_Partial asIs P0 (some cube) 10 1 0 0 1 1 1 0 0 Slot.empty = .ok (Fa, Slot.empty) ∧
+    Crystal_F_H_StructureFactor_Partial asIs P0 (some cube) 10 1 0 0 1 1 0 2 0 Slot.empty = .ok (Fb, Slot.empty) ∧
+    Crystal_F_H_StructureFactor_Partial asIs P0 (some cube) 10 1 0 0 1 1 0 0 2 Slot.empty = .ok (Fc, Slot.empty) ∧
+    Fabc = Fa + Fb + Fc :=
+  fh_additive_flags asIs P0 cube 10 _ 1 1 1 0 0 1 2 2 Slot.empty F0 (cube_hQ asIs) one_pos (by decide) (cube_reports asIs 10 _)
+
+/-- **Friedel's law**: with the absorptive term switched off (`f_prime2_flag = 0`), `F(−h) = conj F(h)` -/
+theorem fh_friedel (v : Variant) (P : Elem ℝ) (cc : Crystal ℝ) (E q D rel : ℝ) (i j k a b : Int) (error : Slot)
+    (F : Int → ℝ × ℝ × ℝ) (hs : SafeMiller v i j k)
+    (hQ : Q_scattering_amplitude v (some cc) E i j k rel Slot.empty = .ok (q, Slot.empty))
+    (hD : 0 < D) (hfl : validFlags a b 0)
+    (hat : ∀ atom ∈ cc.atoms, (0 ≤ atom.Zatom ∧ atom.Zatom < 120) ∧ Reports v P E q D F atom.Zatom) :
+    ∃ Fh : ℝ × ℝ,
+      Crystal_F_H_StructureFactor_Partial v P (some cc) E i j k D rel a b 0 error = .ok (Fh, error) ∧
+      Crystal_F_H_StructureFactor_Partial v P (some cc) E (-i) (-j) (-k) D rel a b 0 error = .ok (conj Fh, error) := by
+  have hQ' : Q_scattering_amplitude v (some cc) E (-i) (-j) (-k) rel Slot.empty = .ok (q, Slot.empty) := by
+    rw [q_inversion v (some cc) E hs]; exact hQ
+  refine ⟨_, fh_eval v P cc error hQ hD hfl F hat, ?_⟩
+  rw [fh_eval v P cc error hQ' hD hfl F hat]
+  unfold Spec.structureFactor
+  simp only [lit0]
+  rw [sumFrom_friedel i j k _ (fun Z => by simp [fAof, flagged])]
+
+example : ∃ Fh : ℝ × ℝ,
+    Crystal_F_H_StructureFactor_Partial asIs P0 (some cube) 10 1 0 0 1 1 2 2 0 Slot.empty = .ok (Fh, Slot.empty) ∧
+    Crystal_F_H_StructureFactor_Partial asIs P0 (some cube) 10 (-1) (-0) (-0) 1 1 2 2 0 Slot.empty = .ok (conj Fh, Slot.empty) :=
+  fh_friedel asIs P0 cube 10 _ 1 1 1 0 0 2 2 Slot.empty F0 (Or.inr cube_smallMiller) (cube_hQ asIs) one_pos (by decide)
+    (cube_reports asIs 10 _)
+
+/-- **the (0,0,0) reflection**, any valid flags: all phases are 1; `Q = 0` without looking at the cell -/
+theorem fh_000_general (v : Variant) (P : Elem ℝ) (cc : Crystal ℝ) (E D rel : ℝ) (a b c : Int) (error : Slot)
+    (F : Int → ℝ × ℝ × ℝ) (hE : 0 < E) (hD : 0 < D) (hfl : validFlags a b c)
+    (hat : ∀ atom ∈ cc.atoms, (0 ≤ atom.Zatom ∧ atom.Zatom < 120) ∧ Reports v P E 0 D F atom.Zatom) :
+    Returns2 (Crystal_F_H_StructureFactor_Partial v P (some cc) E 0 0 0 D rel a b c error)
+      ((cc.atoms.map (fun atom => atom.fraction * (fAof F D a b c atom.Zatom).1)).sum,
+       (cc.atoms.map (fun atom => atom.fraction * (fAof F D a b c atom.Zatom).2)).sum) error := by
+  unfold Returns2
+  rw [fh_eval v P cc error (q_zero_miller v (some cc) hE rel Slot.empty) hD hfl F hat]
+  unfold Spec.structureFactor
+  simp only [lit0]
+  rw [sumFrom_000]
+
+/-- **(0,0,0), f₀ only**: with `FF_Rayl(Z, 0) = Z` the structure factor is `Σ occ · Z · Debye factor` -/
+theorem fh_000 (v : Variant) (P : Elem ℝ) (cc : Crystal ℝ) (E D rel : ℝ) (error : Slot)
+    (F : Int → ℝ × ℝ × ℝ) (hE : 0 < E) (hD : 0 < D)
+    (hat : ∀ atom ∈ cc.atoms, (0 ≤ atom.Zatom ∧ atom.Zatom < 120) ∧ Reports v P E 0 D F atom.Zatom ∧
+      (F atom.Zatom).1 = (atom.Zatom : ℝ)) :
+    Returns2 (Crystal_F_H_StructureFactor_Partial v P (some cc) E 0 0 0 D rel 2 0 0 error)
+      ((cc.atoms.map (fun atom => atom.fraction * ((atom.Zatom : ℝ) * D))).sum, 0) error := by
+  have h := fh_000_general v P cc E D rel 2 0 0 error F hE hD (by decide) (fun atom ha => ⟨(hat atom ha).1, (hat atom ha).2.1⟩)
+  unfold Returns2 at *
+  rw [h]
+  have e1 : cc.atoms.map (fun atom => atom.fraction * (fAof F D 2 0 0 atom.Zatom).1) =
+      cc.atoms.map (fun atom => atom.fraction * ((atom.Zatom : ℝ) * D)) := by
+    apply List.map_congr_left
+    intro atom ha
+    simp [fAof, flagged, (hat atom ha).2.2]
+  have e2 : (cc.atoms.map (fun atom => atom.fraction * (fAof F D 2 0 0 atom.Zatom).2)).sum = 0 := by
+    simp [fAof, flagged]
+  rw [e1, e2]
+
+example : Returns2 (Crystal_F_H_StructureFactor_Partial asIs P0 (some cube) 8 0 0 0 1 1 2 0 0 Slot.empty)
+    ((cube.atoms.map (fun atom => atom.fraction * ((atom.Zatom : ℝ) * 1))).sum, 0) Slot.empty := by
+  apply fh_000 asIs P0 cube 8 1 1 Slot.empty F0 (by norm_num) one_pos
+  intro atom h
+  simp only [cube, List.mem_singleton] at h
+  subst h
+  exact ⟨by decide, P0_reports asIs 8 0, rfl⟩
+
+/-- **invalid flags ⇒ error** — detected while the first atom is processed: `(0,0)` and exactly one error naming the first
+offending flag (order f0, f′, f″) -/
+theorem fh_invalid_flags (v : Variant) (P : Elem ℝ) (cc : Crystal ℝ) (E q D rel : ℝ) (i j k a b c : Int) (error : Slot)
+    (F : Int → ℝ × ℝ × ℝ) (atom : Atom ℝ) (rest : List (Atom ℝ)) (hcc : cc.atoms = atom :: rest)
+    (hQ : Q_scattering_amplitude v (some cc) E i j k rel Slot.empty = .ok (q, Slot.empty))
+    (hD : 0 < D) (hfl : ¬ validFlags a b c) (he : error.isFull = false)
+    (hz : 0 ≤ atom.Zatom ∧ atom.Zatom < 120) (hr : Reports v P E q D F atom.Zatom) :
+    Fails2 (Crystal_F_H_StructureFactor_Partial v P (some cc) E i j k D rel a b c error) error := by
+  obtain ⟨msg, hmsg, hap⟩ := applyFlags_invalid hfl ((F atom.Zatom).1 * D) ((F atom.Zatom).2.1 * D) (-(F atom.Zatom).2.2 * D) he
+  refine ⟨⟨XRL_ERROR_INVALID_ARGUMENT, msg⟩, hmsg, (by decide : XRL_ERROR_INVALID_ARGUMENT ≤ XRL_ERROR_RUNTIME), ?_⟩
+  have haf := atomic_factors_ok v P atom.Zatom hD hr.ff hr.fi hr.fii hr.nz error
+  unfold Crystal_F_H_StructureFactor_Partial
+  simp only [hQ, bind_ok, Slot.isFull, Bool.false_eq_true, if_false, hcc]
+  rw [fillCache]
+  simp only [hz, and_self, if_true, Cache.empty, Option.isSome_none, Bool.false_eq_true, if_false, haf, bind_ok,
+    one_ne_zero, hap]
+  rfl
+
+/-- …and with no atom at all there is nothing to detect: `(0,0)`, no error, whatever the flags -/
+theorem fh_invalid_flags_no_atoms (v : Variant) (P : Elem ℝ) (cc : Crystal ℝ) (E q D rel : ℝ) (i j k a b c : Int)
+    (error : Slot) (hcc : cc.atoms = [])
+    (hQ : Q_scattering_amplitude v (some cc) E i j k rel Slot.empty = .ok (q, Slot.empty)) :
+    Crystal_F_H_StructureFactor_Partial v P (some cc) E i j k D rel a b c error = .ok ((0.0, 0.0), error) := by
+  unfold Crystal_F_H_StructureFactor_Partial
+  simp only [hQ, bind_ok, Slot.isFull, Bool.false_eq_true, if_false, hcc, fillCache, sumAtoms, pure_eq_ok]
+
+example : Fails2 (Crystal_F_H_StructureFactor_Partial asIs P0 (some cube) 8 0 0 0 1 1 3 2 2 Slot.empty) Slot.empty :=
+  fh_invalid_flags asIs P0 cube 8 0 1 1 0 0 0 3 2 2 Slot.empty F0 _ [] rfl
+    (q_zero_miller asIs (some cube) (by norm_num) 1 Slot.empty) one_pos (by decide) rfl (by decide) (P0_reports asIs 8 0)
+
+/-- **finite / no abort.**  For a valid crystal record (non-NULL, non-degenerate cell with positive stored volume, every
+`Zatom` in 0..119 — or repair C13-2), Miller indices without `int` overflow, elemental functions that honour their
+contract and a slot without an error: the call ends in `ok` (a value, or `(0,0)` with an error) — no undefined
+behaviour, no non-finite intermediate, no error stored over an error — provided the shipped `Bragg_angle` is not asked
+for a reflection that does not exist (`E ≤ 0`, hkl = 000, `hc/E ≤ 2d`, or repair C13-1). -/
+theorem fh_no_abort (v : Variant) (P : Elem ℝ) (cc : Crystal ℝ) (E D rel : ℝ) (i j k a b c : Int) (error : Slot)
+    (hP : ElemContract P) (hv : validCell cc) (hz : v.zFix = true ∨ validAtoms cc) (hs : SafeMiller v i j k)
+    (he : error.isFull = false)
+    (hr : v.braggFix = true ∨ E ≤ 0 ∨ (i = 0 ∧ j = 0 ∧ k = 0) ∨
+      ∀ d, Crystal_dSpacing v (some cc) i j k Slot.empty = .ok (d, Slot.empty) → KEV2ANGST / E ≤ 2 * d) :
+    ∃ Fh e', Crystal_F_H_StructureFactor_Partial v P (some cc) E i j k D rel a b c error = .ok (Fh, e') := by
+  apply fh_total v hP hv hz E D rel hs a b c he
+  rcases hr with h | h | h | h
+  · exact Or.inl h
+  · exact Or.inr (Or.inl h)
+  · exact Or.inr (Or.inr (Or.inl h))
+  · by_cases h0 : i = 0 ∧ j = 0 ∧ k = 0
+    · exact Or.inr (Or.inr (Or.inl h0))
+    · exact Or.inr (Or.inr (Or.inr (h _ (dSpacing_valid v hv Slot.empty hs h0))))
+
+example : ∃ Fh e', Crystal_F_H_StructureFactor_Partial asIs P0 (some cube) 8 0 0 0 0.9 1 2 2 2 Slot.empty = .ok (Fh, e') :=
+  fh_no_abort asIs P0 cube 8 0.9 1 0 0 0 2 2 2 Slot.empty P0_contract cube_valid (Or.inr cube_validAtoms)
+    (Or.inr (by decide)) rfl (Or.inr (Or.inr (Or.inl ⟨rfl, rfl, rfl⟩)))
+
+/-- the property (C04 for this function): *no undefined behaviour for any crystal pointer and any record* -/
+def fh_no_ub_full (v : Variant) : Prop :=
+  ∀ (P : Elem ℝ), ElemContract P → ∀ (cr : Option (Crystal ℝ)) (E D rel : ℝ) (i j k a b c : Int) (error : Slot),
+    smallMiller i j k → error.isFull = false →
+    ∀ w, Crystal_F_H_StructureFactor_Partial v P cr E i j k D rel a b c error ≠ .error (.ub w)
+
+/-- `crystal = NULL`, hkl = (0,0,0): `Q` returns 0 without looking at the crystal, then `cc->n_atom` -/
+theorem fh_no_ub_full_fails_null (v : Variant) (hv : v.nullFix = false) : ¬ fh_no_ub_full v := by
+  intro h
+  apply h P0 P0_contract none 8 1 1 0 0 0 2 2 2 Slot.empty (by decide) rfl
+    "member access cc->n_atom within NULL pointer (crystal_diffraction.c:349)"
+  unfold Crystal_F_H_StructureFactor_Partial
+  rw [q_zero_miller v none (by norm_num) 1 Slot.empty]
+  simp [hv, Slot.isFull]
+
+/-- `Zatom = 120`: `f_is_computed[120]` is one past the array -/
+theorem fh_no_ub_full_fails_zatom (v : Variant) (hv : v.zFix = false) : ¬ fh_no_ub_full v := by
+  intro h
+  apply h P0 P0_contract (some badZ) 8 1 1 0 0 0 2 2 2 Slot.empty (by decide) rfl
+    "index out of bounds for f_is_computed[120] (crystal_diffraction.c:352)"
+  unfold Crystal_F_H_StructureFactor_Partial
+  rw [q_zero_miller v (some badZ) (by norm_num) 1 Slot.empty]
+  simp [hv, Slot.isFull, badZ, fillCache]
+
+/-- excluding exactly the two witness sets (NULL pointer, illegal `Zatom`): no undefined behaviour, for every cell -/
+theorem fh_no_ub_partial (v : Variant) (P : Elem ℝ) (cc : Crystal ℝ) (E D rel : ℝ) (i j k a b c : Int) (error : Slot)
+    (hP : ElemContract P) (hz : validAtoms cc) (hs : SafeMiller v i j k) (he : error.isFull = false) (w : String) :
+    Crystal_F_H_StructureFactor_Partial v P (some cc) E i j k D rel a b c error ≠ .error (.ub w) := by
+  rcases fh_outcome v hP (some cc) E D rel hs a b c he (Or.inr (by simp))
+    (Or.inr (fun cc' h => by injection h with h; subst h; exact hz)) with ⟨w', h⟩ | ⟨Fh, e', h⟩ <;> rw [h] <;> simp
+
+example (w : String) : Crystal_F_H_StructureFactor_Partial asIs P0 (some cube) 1 1 0 0 1 1 2 2 2 Slot.empty ≠ .error (.ub w) :=
+  fh_no_ub_partial asIs P0 cube 1 1 1 1 0 0 2 2 2 Slot.empty P0_contract cube_validAtoms (Or.inr cube_smallMiller) rfl w
+
+theorem fh_no_ub_fixed (v : Variant) (hz : v.zFix = true) (hn : v.nullFix = true) : fh_no_ub_full v := by
+  intro P hP cr E D rel i j k a b c error hs he w
+  rcases fh_outcome v hP cr E D rel (Or.inr hs) a b c he (Or.inl hn) (Or.inl hz) with ⟨w', h⟩ | ⟨Fh, e', h⟩ <;> rw [h] <;> simp
+
+/-- after repair C13-3 the NULL crystal is an ordinary error -/
+theorem fh_null_fixed (v : Variant) (hn : v.nullFix = true) (P : Elem ℝ) (E D rel : ℝ) (a b c : Int) (error : Slot)
+    (hE : 0 < E) (he : error.isFull = false) :
+    Fails2 (Crystal_F_H_StructureFactor_Partial v P none E 0 0 0 D rel a b c error) error := by
+  refine ⟨⟨XRL_ERROR_INVALID_ARGUMENT, CRYSTAL_NULL⟩, by decide, by decide, ?_⟩
+  unfold Crystal_F_H_StructureFactor_Partial
+  rw [q_zero_miller v none hE rel Slot.empty]
+  simp only [bind_ok, Slot.isFull, Bool.false_eq_true, if_false, hn, if_true, setErr_notFull he]
+  rfl
+
+example : Fails2 (Crystal_F_H_StructureFactor_Partial repaired P0 none 8 0 0 0 1 1 2 2 2 Slot.empty) Slot.empty :=
+  fh_null_fixed repaired rfl P0 8 1 1 2 2 2 Slot.empty (by norm_num) rfl
+
+/-- `Crystal_F_H_StructureFactor` is the `(2,2,2)` instance (the `…2` variants store the same pair through `result`) -/
+theorem fh_is_partial_222 (v : Variant) (P : Elem ℝ) (cr : Option (Crystal ℝ)) (E : ℝ) (i j k : Int) (D rel : ℝ) (error : Slot) :
+    Crystal_F_H_StructureFactor v P cr E i j k D rel error =
+      Crystal_F_H_StructureFactor_Partial v P cr E i j k D rel 2 2 2 error := rfl
+
+/-! ## `c_abs`, `c_mul` -/
+
+theorem c_abs_spec (re im : ℝ) : c_abs re im = .ok (Real.sqrt (re ^ 2 + im ^ 2)) := by
+  unfold c_abs dsqrt
+  have : ¬ (re * re + im * im < 0) := not_lt.mpr (by nlinarith [mul_self_nonneg re, mul_self_nonneg im])
+  simp only [lit0, this, if_false, pure_eq_ok, xsqrt]
+  congr 2; ring
+
+theorem c_mul_spec (a b c d : ℝ) : c_mul a b c d = (a * c - b * d, a * d + b * c) := rfl
+
 end C13
 end Xrl
